@@ -85,13 +85,15 @@ theorem ackStep_glue (e : EP) (i : Nat) (o : Obj) (ho : e.objs[i]? = some o) (ho
     (the read direction is untouched: half-close). -/
 theorem appShutdown_glue (e : EP) (h i : Nat) (o : Obj)
     (hh : e.handles[h]? = some i) (ho : e.objs[i]? = some o) (hoc : e.outClosed = false) :
-    (o.finishSent = true → appShutdown e h = (e, .unit)) ∧
+    (o.finishSent = true →
+        (appShutdown e h).2 = .unit ∧ (appShutdown e h).1.objs[i]? = some { o with parked := false } ∧
+        (appShutdown e h).1.outq = e.outq) ∧
     (o.finishSent = false →
-        (appShutdown e h).1.objs[i]? = some { o with finishSent := true } ∧
+        (appShutdown e h).1.objs[i]? = some { o with finishSent := true, parked := false } ∧
         (appShutdown e h).1.outq = e.outq ++ [.frame (.finish o.fid)]) := by
   have hobj : e.handleObj h = some (i, o) := by simp [EP.handleObj, hh, ho]
   constructor
-  · intro hf; simp [appShutdown, hobj, hf]
+  · intro hf; simp [appShutdown, hobj, hf, modObj_get_self, ho]
   · intro hf; simp [appShutdown, hobj, hf, EP.enqFrame, enq_outq, hoc, modObj_get_self, ho]
 
 end Penguin.Mux
